@@ -545,6 +545,6 @@ MANIFEST_ENTRY = {
              "with shadow values: equal relative height on every path to each instruction, no pop below what the routine owns, declared "
              "result count at every retsub, frame accesses inside the frame, exactly one value at the main routine's return, no opcode on a "
              "definitely wrong type. Recipes are additionally executed on concrete inputs under the sanitizers: no type/stack failure "
-             "without anytype expressions. Held = held on the programs listed."),
+             "without anytype expressions. Held = held on the programs listed. Rejection duties are probed too: values in statement positions, wrongly typed writes into scratch- and frame-backed ABI values, conditionals with arms of different types, every catalogue constructor with one literal operand of the other type - each must be refused or stay type- and height-safe. The programs the repository's own tests compile are judged as well."),
     "note": "Trusted: vlib/langspec.py stack signatures, vlib/cfg.py, vlib/avm.py. Known finding shared with C03 (optimiser deletes unpaired stores) is attributed by probe + counterfactual.",
 }
